@@ -337,6 +337,9 @@ pub fn trees(max: usize, base: u8) -> Vec<(Shape, Vec<Option<u8>>)> {
                 out.push((s.clone(), placement(n, mask, base)));
                 if mask != 0 && n <= 3 {
                     out.push((s.clone(), placement_empty(n, mask)));
+                    // left trees hold [k+1], right trees [k+1, 00] on the same node numbers: where the
+                    // shapes overlap, the datum that arrives differs from the one there only by a trailing 00
+                    out.push((s.clone(), (0..n).map(|i| if mask >> i & 1 == 1 { Some(if base < 110 { 200 + i as u8 } else { 220 + i as u8 }) } else { None }).collect()));
                 }
             }
         }
@@ -413,7 +416,7 @@ pub fn run_c11(tier: &str) -> Outcome {
             machinery.push(format!("vacuous run: situation '{k}' never occurred"));
         }
     }
-    let rule = format!("every pair of labelled trees (left <= {gmax} vertices, right <= {hmax}; in the thorough tier pairs of 7 vertices get a fifth and pairs of 8 a twentieth of the variants, rotating; labels α0/x/foo, sibling labels distinct), every placement of data (distinct bytes per vertex, inline and heap; and the empty datum), 5 id assignments of the left tree (dense, reversed, gaps, new ids landing on recycled slots, left tree built on recycled slots) x put before/after bind, 3 id assignments of the right tree, the right tree with unread data and with data that was already read before the merge, every `left`, Sodg<3> and Sodg<16>; kept if the reference model says the result stays within the limits. Oracle: Ok; right graph unchanged; the graft applied to the model as add/bind/put (new ids read back from the implementation, each absent before and never returned by next_id) equals the left graph afterwards (vertices, edges); injective mapping; then every order of reads of the data-holding vertices (<= 4 holders: all permutations) compared with the model read by read (bytes and alive set). distinct_nontrivial = merge cases inside the limits");
+    let rule = format!("every pair of labelled trees (left <= {gmax} vertices, right <= {hmax}; in the thorough tier pairs of 7 vertices get a fifth and pairs of 8 a twentieth of the variants, rotating; labels α0/x/foo, sibling labels distinct), every placement of data (distinct bytes per vertex, inline and heap; the empty datum; data that differ from the ones they overwrite only by a trailing 00 byte), 5 id assignments of the left tree (dense, reversed, gaps, new ids landing on recycled slots, left tree built on recycled slots) x put before/after bind, 3 id assignments of the right tree, the right tree with unread data and with data that was already read before the merge, every `left`, Sodg<3> and Sodg<16>; kept if the reference model says the result stays within the limits. Oracle: Ok; right graph unchanged; the graft applied to the model as add/bind/put (new ids read back from the implementation, each absent before and never returned by next_id) equals the left graph afterwards (vertices, edges); injective mapping; then every order of reads of the data-holding vertices (<= 4 holders: all permutations) compared with the model read by read (bytes and alive set). distinct_nontrivial = merge cases inside the limits");
     super::outcome("C11", tier, "exploration", &rule, acc, true, json!({"left_trees": ng, "right_trees": nh, "variants": nv}), t0.elapsed().as_secs_f64(), vec!["checked up to the choice of new ids, which the statement leaves open".to_string(), "the merge inside longer histories (C01-C03 afterwards) is additionally explored by the Merge transition of HX in the C01-C05 runs".to_string()], machinery)
 }
 
